@@ -14,6 +14,11 @@ def check(pid, category, text, note, technique, design_ref):
     }
 
 CHECKS = [
+    check("C13", "proof",
+          "Coq theorems: the hashed serialisation of a rule is injective on everything the parser can produce (proved: parse only returns rules with non-empty, newline-free strings), canonical forms coincide iff targets and sources are permutations of each other and the command lines are equal in order, re-ordering never changes the identity; a refutation outside the parser's range shows the hypothesis is needed. Model tied to Rule::get_ticket by differential runs on near-miss pairs, with a monitor comparing identities against the property's own 'same rule'.",
+          "Trusted: Coq kernel, extraction, harness; SHA-256 collision freedom idealised (theorems speak about preimages); correspondence is sampling.",
+          "Coq proof (injectivity of the section serialisation by induction; sort/permutation lemmas) + differential correspondence on near-miss rule pairs",
+          "DESIGN.md 5 C13"),
     check("C15", "proof",
           "Coq theorems for all 256-bit values and all byte strings: decode62(encode62 b)=b, everything accepted is a true encoding, exact classification of rejected strings (length, first foreign character, overflow), chunking-independence of the file hash, injectivity of the directory preimage. Model tied to src/ticket.rs by differential runs (base-62 both ways incl. overflow band and multi-byte input; TicketFactory::from_file on every length 0..1100 under six read chunkings vs the extracted Coq SHA-256).",
           "Trusted: Coq kernel, ExtrOcamlBasic extraction, harness; rust-crypto's SHA-256 is tested against the Coq implementation (FIPS vectors by vm_compute), not proved; correspondence is sampling.",
